@@ -220,47 +220,60 @@ def run(rep, drv):
 			elif which == 'yield-additive':
 				d = mean
 				ymn, ysd = rng.choice([(2.0, 1.0), (0.0, 3.0), (-1.5, 0.5), (4.0, 2.5)])
-				shape = rng.choice(['moments', 'normal-object', 'uniform', 'gamma', 'discrete', 'uniform+moments', 'gamma+moments', 'discrete+moments', 'uniform+lossfn'])
-				rep.count('additive-yield:' + shape)
-				kw = {}; dist = None
-				if shape.startswith('normal'): dist = stats.norm(ymn, ysd)
-				elif shape.startswith('uniform'): dist = stats.uniform(ymn - ysd * 3 ** .5, 2 * ysd * 3 ** .5)
-				elif shape.startswith('gamma'): dist = stats.gamma(4, loc=ymn - 2 * ysd, scale=ysd / 2)        # shifted gamma with exactly these moments
-				elif shape.startswith('discrete'): dist = stats.randint(max(0, int(ymn) - 3), max(0, int(ymn) - 3) + 8)      # discrete_loss documents F(x) = 0 for x < 0: non-negative support only
-				if dist is not None: kw['yield_distribution'] = dist
-				if shape == 'moments': kw.update(yield_mean=ymn, yield_sd=ysd)
-				if shape.endswith('+moments'): kw.update(yield_mean=float(dist.mean()), yield_sd=float(dist.std()))
-				if shape.endswith('+lossfn'):
-					lo_, hi_ = dist.support()
-					kw['loss_function'] = lambda x: lf.uniform_loss(x, lo_, hi_)
-				S, c = call(su.newsvendor_with_additive_yield_uncertainty, h, p, d, **kw)
-				_, c2 = call(su.newsvendor_with_additive_yield_uncertainty, h, p, d, base_stock_level=S, **kw)
-				if not close(c, c2, 1e-8): errs.append('%s: reported %r != evaluated %r' % (shape, c, c2))
-				steps = (-1.0, 0.5, 3.0, -0.25 * ysd, 0.25 * ysd, -ysd, ysd, -2 * ysd, 2 * ysd) if 'discrete' not in shape else (-1.0, 1.0, 2.0, -3.0)
-				for dS in steps:
-					if shape.endswith('+lossfn') and not (lo_ <= d - S - dS <= hi_):
-						continue          # uniform_loss is defined on the support only
-					_, ca = call(su.newsvendor_with_additive_yield_uncertainty, h, p, d, base_stock_level=S + dS, **kw)
-					if ca < c - 1e-7 * max(1, c): errs.append('%s: S*=%r costs %r but S=%r costs %r' % (shape, S, c, S + dS, ca))
-				# the cost is the documented expectation p E[(R-Y)+] + h E[(Y-R)+] with R = d - S, under the yield that the call describes
-				if '+' not in shape:
-					R = d - S
-					if shape in ('moments', 'normal-object'):
-						z = (R - ymn) / ysd; Lz = stats.norm.pdf(z) - z * (1 - stats.norm.cdf(z))
-						n_ = ysd * Lz; nb_ = n_ + (R - ymn)
-					elif shape == 'uniform':
+				for shape in ('moments', 'normal-object', 'uniform', 'gamma', 'discrete', 'uniform+moments', 'gamma+moments', 'discrete+moments', 'uniform+lossfn'):
+					rep.count('additive-yield:' + shape)
+					kw = {}; dist = None
+					if shape.startswith('normal'): dist = stats.norm(ymn, ysd)
+					elif shape.startswith('uniform'): dist = stats.uniform(ymn - ysd * 3 ** .5, 2 * ysd * 3 ** .5)
+					elif shape.startswith('gamma'): dist = stats.gamma(4, loc=ymn - 2 * ysd, scale=ysd / 2)        # shifted gamma with exactly these moments
+					elif shape.startswith('discrete'): dist = stats.randint(max(0, int(ymn) - 3), max(0, int(ymn) - 3) + 8)      # discrete_loss documents F(x) = 0 for x < 0: non-negative support only
+					if dist is not None: kw['yield_distribution'] = dist
+					if shape == 'moments': kw.update(yield_mean=ymn, yield_sd=ysd)
+					if shape.endswith('+moments'): kw.update(yield_mean=float(dist.mean()), yield_sd=float(dist.std()))
+					if shape.endswith('+lossfn'):
 						lo_, hi_ = dist.support()
-						n_ = (lo_ + hi_) / 2 - R if R <= lo_ else (0.0 if R >= hi_ else (hi_ - R) ** 2 / (2 * (hi_ - lo_)))
-						nb_ = n_ + (R - (lo_ + hi_) / 2)
-					elif shape == 'discrete':
+						kw['loss_function'] = lambda x: lf.uniform_loss(x, lo_, hi_)
+					S, c = call(su.newsvendor_with_additive_yield_uncertainty, h, p, d, **kw)
+					_, c2 = call(su.newsvendor_with_additive_yield_uncertainty, h, p, d, base_stock_level=S, **kw)
+					if not close(c, c2, 1e-8): errs.append('%s: reported %r != evaluated %r' % (shape, c, c2))
+					steps = (-1.0, 0.5, 3.0, -0.25 * ysd, 0.25 * ysd, -ysd, ysd, -2 * ysd, 2 * ysd) if 'discrete' not in shape else (-1.0, 1.0, 2.0, -3.0)
+					for dS in steps:
+						if shape.endswith('+lossfn') and not (lo_ <= d - S - dS <= hi_):
+							continue          # uniform_loss is defined on the support only
+						_, ca = call(su.newsvendor_with_additive_yield_uncertainty, h, p, d, base_stock_level=S + dS, **kw)
+						if ca < c - 1e-7 * max(1, c): errs.append('%s: S*=%r costs %r but S=%r costs %r' % (shape, S, c, S + dS, ca))
+					if shape == 'discrete':
+						# the Lean model: a newsvendor in R = d - S with the yield as "demand", overage rate p, underage rate h (theorem add_yield_optimal)
 						lo_, hi_ = dist.support()
-						n_ = sum(max(y - R, 0) * dist.pmf(y) for y in range(int(lo_), int(hi_) + 1)); nb_ = n_ + (R - float(dist.mean()))
-					else:
-						n_ = float(dist.expect(lambda y: max(y - R, 0.0))); nb_ = n_ + (R - float(dist.mean()))
-					want = p * nb_ + h * n_
-					if not close(c, want, 1e-5): errs.append('%s: cost at S*=%r reported %r, definition gives %r' % (shape, S, c, want))
-					if 'discrete' not in shape and not close(float((dist or stats.norm(ymn, ysd)).cdf(d - S)), h / (h + p), 1e-7):
-						errs.append('%s: F_Y(d - S*) is not h/(h+p)' % shape)
+						pm = [F(0)] * int(lo_) + [F(1, int(hi_ - lo_ + 1))] * int(hi_ - lo_ + 1)
+						Rs = list(range(-2, int(hi_) + 3))
+						mo = drv.call('nvdiscrete', pmf=frs(pm), h=fr(F(p).limit_denominator(10 ** 6)), b=fr(F(h).limit_denominator(10 ** 6)), ys=Rs)
+						rep.tol_cmp += 1
+						if int(d - S) != mo['opt'] and not close(float(unfr(mo['costs'][Rs.index(mo['opt'])])), c, 1e-9):
+							errs.append('discrete: S*=%r (R=%d) but the model newsvendor in R is minimised at R=%d' % (S, int(d - S), mo['opt']))
+						for R_, mc in zip(Rs, mo['costs']):
+							_, ca = call(su.newsvendor_with_additive_yield_uncertainty, h, p, d, base_stock_level=d - R_, **kw)
+							if not close(ca, float(unfr(mc)), 1e-9):
+								errs.append('discrete: cost at S=%r python %r, model %r' % (d - R_, ca, float(unfr(mc)))); break
+					# the cost is the documented expectation p E[(R-Y)+] + h E[(Y-R)+] with R = d - S, under the yield that the call describes
+					if '+' not in shape:
+						R = d - S
+						if shape in ('moments', 'normal-object'):
+							z = (R - ymn) / ysd; Lz = stats.norm.pdf(z) - z * (1 - stats.norm.cdf(z))
+							n_ = ysd * Lz; nb_ = n_ + (R - ymn)
+						elif shape == 'uniform':
+							lo_, hi_ = dist.support()
+							n_ = (lo_ + hi_) / 2 - R if R <= lo_ else (0.0 if R >= hi_ else (hi_ - R) ** 2 / (2 * (hi_ - lo_)))
+							nb_ = n_ + (R - (lo_ + hi_) / 2)
+						elif shape == 'discrete':
+							lo_, hi_ = dist.support()
+							n_ = sum(max(y - R, 0) * dist.pmf(y) for y in range(int(lo_), int(hi_) + 1)); nb_ = n_ + (R - float(dist.mean()))
+						else:
+							n_ = float(dist.expect(lambda y: max(y - R, 0.0))); nb_ = n_ + (R - float(dist.mean()))
+						want = p * nb_ + h * n_
+						if not close(c, want, 1e-5): errs.append('%s: cost at S*=%r reported %r, definition gives %r' % (shape, S, c, want))
+						if 'discrete' not in shape and not close(float((dist or stats.norm(ymn, ysd)).cdf(d - S)), h / (h + p), 1e-7):
+							errs.append('%s: F_Y(d - S*) is not h/(h+p)' % shape)
 			elif which == 'disruptions':
 				d = mean; a, b = rng.choice([0.04, 0.1]), rng.choice([0.25, 0.5])
 				S, c = call(su.newsvendor_with_disruptions, h, p, d, a, b)
